@@ -221,6 +221,19 @@ func (c *Ctx) resolve(v ssa.Value) (ssa.Value, *Ctx) {
 				continue
 			}
 			return v, c
+		case *ssa.Field:
+			// a field of a struct value that is the copy of a local struct cell (a value receiver, `res.check()`):
+			// what was stored into that field of the cell, if that is a single store
+			bv, bc := c.resolve(x.X)
+			if ld, ok := bv.(*ssa.UnOp); ok && ld.Op == token.MUL {
+				if al, ok := ld.X.(*ssa.Alloc); ok && !cellEscapes(al) && len(cellStores(al)) == 0 {
+					if st := localFieldStore(al, x.Field); st != nil && instrDominates(st, ld) {
+						v, c = st.Val, bc
+						continue
+					}
+				}
+			}
+			return v, c
 		case *ssa.ChangeType:
 			v = x.X
 			continue
@@ -267,10 +280,23 @@ func (c *Ctx) resolve(v ssa.Value) (ssa.Value, *Ctx) {
 				if fa, ok := x.X.(*ssa.FieldAddr); ok {
 					base, bctx := c.resolve(fa.X)
 					if al, ok := base.(*ssa.Alloc); ok {
-						if st := c.E.singleFieldStore(fa); st != nil {
+						if st := c.E.singleFieldStoreFor(fa, al); st != nil {
 							if sfa, ok := st.Addr.(*ssa.FieldAddr); ok && sfa.X == ssa.Value(al) && st.Parent() == al.Parent() {
 								v, c = st.Val, bctx
 								continue
+							}
+							// the cell is a copy of a whole struct value (a value receiver spilled into a local): the field of
+							// that value
+							if st.Addr == ssa.Value(al) && st.Parent() == al.Parent() {
+								sv, sc := bctx.resolve(st.Val)
+								if ld2, ok := sv.(*ssa.UnOp); ok && ld2.Op == token.MUL {
+									if al2, ok := ld2.X.(*ssa.Alloc); ok && !cellEscapes(al2) && len(cellStores(al2)) == 0 {
+										if st2 := localFieldStore(al2, fa.Field); st2 != nil && instrDominates(st2, ld2) {
+											v, c = st2.Val, sc
+											continue
+										}
+									}
+								}
 							}
 						}
 					}
@@ -281,6 +307,62 @@ func (c *Ctx) resolve(v ssa.Value) (ssa.Value, *Ctx) {
 		return v, c
 	}
 	return v, c
+}
+
+// singleFieldStoreFor: like singleFieldStore, but stores that certainly write another object (their address is rooted
+// at a different local cell: a callee's copy of the struct, another local) do not count against object al.
+func (e *Engine) singleFieldStoreFor(fa *ssa.FieldAddr, al *ssa.Alloc) *ssa.Store {
+	e.singleFieldStore(fa) // fills the table
+	f := fieldOf(fa)
+	var found *ssa.Store
+	for _, st := range e.fieldStores[f] {
+		root := st.Addr
+		for i := 0; i < 6; i++ {
+			switch x := root.(type) {
+			case *ssa.FieldAddr:
+				root = x.X
+				continue
+			case *ssa.IndexAddr:
+				root = x.X
+				continue
+			}
+			break
+		}
+		if other, ok := root.(*ssa.Alloc); ok && other != al {
+			continue
+		}
+		if found != nil {
+			return nil
+		}
+		found = st
+	}
+	return found
+}
+
+// localFieldStore: the single store to field idx of the local struct cell al (nil if none or several).
+func localFieldStore(al *ssa.Alloc, idx int) *ssa.Store {
+	var found *ssa.Store
+	refs := al.Referrers()
+	if refs == nil {
+		return nil
+	}
+	for _, r := range *refs {
+		fa, ok := r.(*ssa.FieldAddr)
+		if !ok || fa.Field != idx {
+			continue
+		}
+		if fr := fa.Referrers(); fr != nil {
+			for _, u := range *fr {
+				if st, ok := u.(*ssa.Store); ok && st.Addr == ssa.Value(fa) {
+					if found != nil {
+						return nil
+					}
+					found = st
+				}
+			}
+		}
+	}
+	return found
 }
 
 // singleFieldStore: the one store instruction in the module that writes the struct field addressed by fa, if there is
@@ -420,6 +502,15 @@ func (c *Ctx) reachingStore(al *ssa.Alloc, ld *ssa.UnOp, ldCtx *Ctx) (ssa.Value,
 	if len(stores) == 1 {
 		st := stores[0]
 		if st.Parent() != al.Parent() {
+			// assigned once, inside a local closure that was run (inlined) before this load:
+			// `var err error; w.locked(func() { err = w.remove(p) }); return err`
+			if ld.Parent() == al.Parent() && ldCtx == c {
+				if k := findKidCtx(c, st.Parent()); k != nil {
+					if site := siteIn(k, c); site != nil && instrDominates(site, ld) {
+						return st.Val, k
+					}
+				}
+			}
 			return nil, nil
 		}
 		// a single assignment: its value - unless this load can run before it (a named result read by an early bare
@@ -500,6 +591,16 @@ func (c *Ctx) reachingStore(al *ssa.Alloc, ld *ssa.UnOp, ldCtx *Ctx) (ssa.Value,
 		return nil, nil
 	}
 	return best.Val, c
+}
+
+// siteIn: the instruction of ancestor context anc through which descendant k was entered.
+func siteIn(k, anc *Ctx) ssa.Instruction {
+	for x := k; x != nil && x.Parent != nil; x = x.Parent {
+		if x.Parent == anc {
+			return x.Site
+		}
+	}
+	return nil
 }
 
 // zeroConst: the zero value of t as a constant.
@@ -1137,7 +1238,7 @@ func (c *Ctx) maskTest(v ssa.Value) (ssa.Value, uint64, bool) {
 }
 
 func (c *Ctx) bitAtom(subj ssa.Value, k uint64, all bool, v ssa.Value) *Atom {
-	a := &Atom{Subj: c.path(subj), Bits: k, V: v, Ctx: c}
+	a := &Atom{Subj: c.path(subj), Bits: k, V: v, Ctx: c, SubjType: subj.Type().String()}
 	switch {
 	case popcount(k) == 1:
 		a.Kind = AkBit
@@ -1219,7 +1320,9 @@ func (c *Ctx) atom(v ssa.Value) (*Atom, bool) {
 			// Op.Has / Event.Has
 			if subj, karg, ok := c.hasCall(x, cal); ok {
 				if k, ok := c.constUint(karg); ok && k != 0 {
-					return c.bitAtomS(subj, k, v), false
+					at := c.bitAtomS(subj, k, v)
+					at.SubjType = karg.Type().String() // Has(op Op): the subject is an Op as well
+					return at, false
 				}
 			}
 			if fullName(cal) == "errors.Is" && len(x.Call.Args) == 2 {
